@@ -121,7 +121,10 @@ GoodQC(blk, round) == [blk |-> blk, round |-> round, votes |-> GoodVotes(QuorumS
 BadQCs(blk, round) == { [blk |-> blk, round |-> round, votes |-> GoodVotes(SmallSet, blk, round)],
                         [blk |-> blk, round |-> round + 1, votes |-> GoodVotes(QuorumSet, blk, round)],
                         [blk |-> blk, round |-> round, votes |-> [GoodVotes(QuorumSet, blk, round) EXCEPT ![1].sig = Flip(@)]],
-                        [blk |-> blk, round |-> round, votes |-> Append(GoodVotes(QuorumSet, blk, round), GoodVotes(QuorumSet, blk, round)[1])] }
+                        [blk |-> blk, round |-> round, votes |-> Append(GoodVotes(QuorumSet, blk, round), GoodVotes(QuorumSet, blk, round)[1])],
+                        \* look-alikes of QC::genesis() (which is exempt from verification): only hash = 0 AND round = 0 is genesis
+                        [blk |-> blk, round |-> 0, votes |-> <<>>],
+                        [blk |-> 0, round |-> round, votes |-> <<>>] }
 GoodTC(round) == [round |-> round, entries |-> GoodEntries(QuorumSet, round, HQR0)]
 BadTCs(round) == { [round |-> round, entries |-> GoodEntries(SmallSet, round, HQR0)],
                    [round |-> round, entries |-> [GoodEntries(QuorumSet, round, HQR0) EXCEPT ![1].sig = Flip(@)]] }
